@@ -158,7 +158,16 @@ class C05(InterpProp):
                 if rnd.random() < knobs.clock_moves:
                     # the clock moves between two steps: the due time counts from the *interpreter's* time
                     t += rnd.choice([1, 2, 3])
-                    ops.append(['setclock', 0, t])
+                    ops.append(['setclock', 0, t] + (['new'] if rnd.random() < 0.15 else []))
+                if rnd.random() < 0.12 and not any(kv[0] == 'event' for kv in data):
+                    # several events in one call of queue(), given by name and as Event instances, in that order
+                    more = [{'ev': rnd.choice(gen.EVENTS), 'data': [['v', rnd.randint(0, 4)], ['b', rnd.random() < 0.5]] +
+                             ([['delay', rnd.randint(0, 3)]] if rnd.random() < 0.3 else [])} for _ in range(rnd.randint(1, 2))]
+                    op = gen.queue_many(rnd, 0, [{'ev': name, 'data': data}] + more)
+                    for e in op[2]:
+                        dues.append(t + ev_delay(e))
+                    ops.append(op)
+                    continue
                 ops.append(['queue', 0, {'ev': name, 'data': data}])
             elif c < 0.5 and knobs.flags:
                 ops.append(['setvar', 0, 'v%d' % rnd.randrange(knobs.flags), rnd.random() < 0.5])
